@@ -248,7 +248,7 @@ pub fn run(name: &str, tier: &str, rep: &mut Report) -> bool {
         rep.machinery_errors.push(e);
     }
     rep.bounds = json!({"configurations": bounds, "budget_per_call": seq::BUDGET,
-        "dedup_key": "ground-truth contents of every queue (ids relabelled) + reported shared len + reported local lengths + pops mod 61",
+        "dedup_key": "ground-truth contents of every queue (ids relabelled) + reported shared len + reported local lengths + pops mod 61 + the per-priority containers that exist (queue, key, capacity)",
         "drain_probe": "in every visited state: draining all queues returns exactly the items not yet popped"});
     rep.sample(json!({"config": plan[0].0.to_json(), "history": hist_json(&[Op::Push { q: 0, p: 0 }, Op::Push { q: 0, p: 0 }, Op::Pop { q: 1, start: 0 }, Op::Pop { q: 0, start: 0 }])}));
     true
